@@ -39,7 +39,11 @@ Inductive case :=
 | CaseCidr (txt : list N) (res : option ipnet)
   (* the handler in front of a scripted next handler and Queryer; wf: the A
      response's alias chain was generated well-formed starting at the qname *)
-| CaseServe (cf : config) (q : query) (down : option (msg * N)) (work : bool) (al : alookup) (wf : bool) (o : obs).
+| CaseServe (cf : config) (q : query) (down : option (msg * N)) (work : bool) (al : alookup) (wf : bool) (o : obs)
+  (* the same through the real server: a UDP query to server.Server running the pipeline
+     [dns64; scripted next] with the auto-wired pipeline Queryer; the reply as read from the socket
+     (o_same is not observable there) *)
+| CaseWire (cf : config) (q : query) (down : option (msg * N)) (s : sub_script) (wf : bool) (o : obs).
 
 (* ---------------- equality tests ---------------- *)
 Definition opt_eqb {A} (f : A -> A -> bool) (a b : option A) : bool :=
@@ -85,6 +89,13 @@ Definition result_matches (x : result) (o : obs) : bool :=
          end
   end.
 
+(* over the wire the identity of the message object is gone; everything else is compared *)
+Definition result_matches_wire (x : result) (o : obs) : bool :=
+  match x_reply x with
+  | Some r => result_matches (mk_result (x_path x) (Some (mk_reply (o_same o) (r_rcode r) (r_ad r) (r_edes r) (r_answer r))) (x_aq x) (x_next x)) o
+  | None => result_matches x o
+  end.
+
 Definition check_case (c : case) : bool :=
   match c with
   | CaseEmbed p v4 valid emb ext =>
@@ -101,6 +112,7 @@ Definition check_case (c : case) : bool :=
   | CaseCidr txt res => opt_eqb ipnet_eqb (if existsb (N.eqb 58) txt then parse_cidr6 txt else parse_cidr4 txt) res
   | CaseServe cf q down work al wf o =>
       result_matches (serve cur cf q down work al) o
+  | CaseWire cf q down s wf o => result_matches_wire (serve_wire cf q down s) o
   end.
 
 (* ---------------- specification oracle ---------------- *)
@@ -228,4 +240,5 @@ Definition spec_case (c : case) : bool :=
       Bool.eqb res ((rcode =? 2) && match code with Some c => existsb (N.eqb c) spec_dnssec_codes | None => false end)
   | CaseCidr txt res => true
   | CaseServe cf q down work al wf o => spec_serve cf q down work al wf o
+  | CaseWire cf q down s wf o => spec_serve cf q down false (al_of_script s) wf o
   end.
